@@ -301,25 +301,3 @@ def nontrivial(fn, arg, out):
     return out[0] == 0 and bool(out[1][0] or out[1][1] or out[1][3] or out[1][8])
 
 from props.c03_oracle import oracle
-
-# ----------------------------------------------------------------------------------------
-# known finding C03-F3: bibtex_width takes ANY token that starts with a backslash at brace level 1 for a special character,
-# also a lone backslash inside an ordinary group ({a\b}): it then counts nothing for it and subtracts two brace widths
-def _sig_width_lone_backslash(kind, fn, arg, detail):
-    import re, ast
-    from props.c03_oracle import lone_backslash_at_level_1
-    if kind != 'oracle' or not isinstance(detail, str):
-        return False
-    m = re.search(r'\(width\$ was applied to (\[.*\])\)$', detail)
-    if not m:
-        return False
-    try:
-        args = ast.literal_eval(m.group(1))
-    except Exception:
-        return False
-    return any(lone_backslash_at_level_1(a) for a in args)
-KNOWN_SIGNATURES = {'C03-F3': _sig_width_lone_backslash}
-
-def replay_known(finding):
-    arg = norm(finding['pinned']['arg'])
-    return oracle(1, arg, impl_run(arg))
